@@ -1,4 +1,6 @@
-\* C12 MC: 2 readers x 2 changes x 2 files, 2 queries per snapshot; a Change = any interleaving of its writes with up to 2 files
+\* vacuity: a Change::apply that keeps the FIRST content queued for a file (skips later writes of the same file) leaves an
+\* intermediate text behind - TLC must refute NoIntermediate / ApplyEffect
+\* (otherwise as Host.cfg:) 2 readers x 2 changes x 2 files, 2 queries per snapshot; a Change = any interleaving of its writes with up to 2 files
 \* written twice (intermediate, then final text), optionally preceded by a roots/package-graph write; exhaustive, no state constraint; liveness on
 CONSTANTS
   Readers = {1, 2}
@@ -8,10 +10,10 @@ CONSTANTS
   ExclusiveHost = TRUE
   ChecksFlag = TRUE
   SyntheticWrite = TRUE
-  LastWins = TRUE
+  LastWins = FALSE
   MaxDup = 2
   MaxMeta = 1
 SPECIFICATION Spec
 INVARIANTS TypeOK Isolation NoTornRead Frozen CancelledOnlyIfPending VersionsDistinct NoIntermediate
-PROPERTIES Prompt SnapshotSeesCommitted ApplyEffect
+PROPERTIES ApplyEffect
 CHECK_DEADLOCK TRUE
